@@ -26,7 +26,12 @@ for d in sorted(glob.glob(os.path.join(VERIF, "seeded", "*", ""))):
     # a patch written before a later repair of /repo touched the same lines is applied by a three-way merge, or,
     # failing that, to the tree it was written against (SEED_BASE: the last commit before repairs D16 / D17)
     patch = os.path.join(d, "patch.diff")
-    if subprocess.run(["git", "-C", wt, "apply", "--check", patch], capture_output=True).returncode == 0:
+    base = json.load(open(os.path.join(d, "meta.json"))).get("apply_to")
+    if base:
+        # a seed whose mechanism a later repair of /repo removed is applied to the tree before that repair
+        subprocess.run(["git", "-C", wt, "checkout", "-q", "--detach", "-f", base], check=True)
+        subprocess.run(["git", "-C", wt, "apply", patch], check=True)
+    elif subprocess.run(["git", "-C", wt, "apply", "--check", patch], capture_output=True).returncode == 0:
         subprocess.run(["git", "-C", wt, "apply", patch], check=True)
     elif subprocess.run(["git", "-C", wt, "apply", "-3", patch], capture_output=True).returncode == 0:
         subprocess.run(["git", "-C", wt, "reset", "-q"], check=True)
